@@ -112,6 +112,7 @@ type Tier struct {
 	GroupRounds int            // focused runs per package-level variable that two or more catalogue entries reach: those entries together in one run
 	Warm        map[string]int // rounds of long-lived-caller runs (OpSpec.Warm) per family; "*" = every entry, "hot" = entries that reach a hot site
 	WarmMax     int            // most discarded repetitions per task in such a run
+	WarmYields  int            // yields of discarded repetitions per task aimed at
 	HotRounds   int            // extra focused rounds for entries that executed a hot site in the probe step
 	Many        map[string]int // rounds of many-task (9-24 tasks) focused runs per family
 	PairRounds  int            // rounds over all pairs of "sec" entries
@@ -128,8 +129,8 @@ type Tier struct {
 }
 
 var Tiers = map[string]Tier{
-	"quick":    {Name: "quick", GroupRounds: 8, Warm: map[string]int{"sec": 2, "fn": 1, "encode": 1, "decode": 1, "roundtrip": 1, "hist": 1, "accessors": 1, "hot": 1}, WarmMax: 4000, HotRounds: 6, Many: map[string]int{"sec": 4, "roundtrip": 1, "hist": 1}, PairRounds: 1, Extra: map[string]int{"sec": 12, "roundtrip": 8, "hist": 4, "fn": 4, "chain": 2}, Rounds: 1, Reps: 6, MaxTasks: 8, Faults: true, ChunkSize: 1, NShared: 24, NRecycle: 24},
-	"thorough": {Name: "thorough", GroupRounds: 64, Warm: map[string]int{"*": 2, "sec": 8, "fn": 2, "roundtrip": 2, "hot": 4}, WarmMax: 70000, HotRounds: 24, Many: map[string]int{"sec": 12, "roundtrip": 4, "hist": 2, "fn": 1, "accessors": 1}, PairRounds: 6, Extra: map[string]int{"sec": 120, "roundtrip": 40, "hist": 20, "fn": 8, "accessors": 4, "chain": 8}, Rounds: 4, Reps: 8, MaxTasks: 64, Faults: true, ChunkSize: 1, NShared: 96, NRecycle: 96},
+	"quick":    {Name: "quick", GroupRounds: 8, Warm: map[string]int{"sec": 2, "fn": 1, "encode": 1, "decode": 1, "roundtrip": 1, "hist": 1, "accessors": 1, "hot": 1}, WarmMax: 5000, WarmYields: 1200000, HotRounds: 6, Many: map[string]int{"sec": 4, "roundtrip": 1, "hist": 1}, PairRounds: 1, Extra: map[string]int{"sec": 12, "roundtrip": 8, "hist": 4, "fn": 4, "chain": 2}, Rounds: 1, Reps: 6, MaxTasks: 8, Faults: true, ChunkSize: 1, NShared: 24, NRecycle: 24},
+	"thorough": {Name: "thorough", GroupRounds: 64, Warm: map[string]int{"*": 1, "sec": 8, "fn": 2, "roundtrip": 2, "hot": 4}, WarmMax: 12000, WarmYields: 3000000, HotRounds: 24, Many: map[string]int{"sec": 12, "roundtrip": 4, "hist": 2, "fn": 1, "accessors": 1}, PairRounds: 6, Extra: map[string]int{"sec": 120, "roundtrip": 40, "hist": 20, "fn": 8, "accessors": 4, "chain": 8}, Rounds: 4, Reps: 8, MaxTasks: 64, Faults: true, ChunkSize: 1, NShared: 96, NRecycle: 96},
 }
 
 // NumFocused is the number of focused runs of a tier (they come first).
@@ -467,15 +468,15 @@ func PlanRun(seed, index uint64, tierName string) *Plan {
 		// cheap operations are repeated more often: about 1500 yields per task, at
 		// least Reps and at most 10 x Reps calls (costs come from the probe step)
 		reps := t.Reps
-		warmN := 0
+		warmN, coolRun := 0, false
 		if warm {
-			// about 600 000 yields of discarded repetitions per task (well below the yield
+			// WarmYields yields of discarded repetitions per task (every repetition has a yield
 			// budget of one operation), at most WarmMax calls
 			cost := 40
 			if i := fl[index] - warmBase; i < len(Cat.Cost) && Cat.Cost[i] > 0 {
 				cost = Cat.Cost[i]
 			}
-			warmN = 600000 / (cost + 1)
+			warmN = t.WarmYields / (cost + 1)
 			if warmN > t.WarmMax {
 				warmN = t.WarmMax
 			}
@@ -485,7 +486,8 @@ func PlanRun(seed, index uint64, tierName string) *Plan {
 			if r.Bool() {
 				warmN = warmN/4 + r.Intn(warmN/2+1) // not always the same number of calls
 			}
-			if r.Chance(30) {
+			coolRun = r.Chance(45)
+			if !coolRun && r.Chance(40) {
 				// the warm-up happens before the tasks exist (one caller started the process,
 				// the others join a library that is already warm)
 				p.PreWarm = &OpSpec{Fam: chunk[0].Fam, Name: chunk[0].Name, Seed: r.U64(), Warm: warmN * ntask}
@@ -552,7 +554,11 @@ func PlanRun(seed, index uint64, tierName string) *Plan {
 					}
 					e = sd.apply(e)
 					if rep == 0 && i == 0 {
-						e.Warm = warmN
+						if coolRun {
+							e.Cool = warmN // keeps its first result while it makes the other calls
+						} else {
+							e.Warm = warmN
+						}
 					}
 					ops = append(ops, e)
 				}
@@ -868,7 +874,7 @@ func buildAll(p *Plan, env *Env, slow map[[2]int]bool, sequential bool) [][]*Ins
 			if sequential {
 				// the sequential reference of a long-lived caller's recorded call is that call
 				// alone: what it returns must not depend on how many calls came before it
-				spec.Warm = 0
+				spec.Warm, spec.Cool = 0, 0
 			}
 			insts[t] = append(insts[t], Cat.Build(spec, env, t))
 		}
